@@ -864,6 +864,10 @@ func (sema *ExprSemanticsChecker) checkFuncCall(n *FuncCallNode) ExprType {
 			ss = append(ss, n)
 		}
 		sema.errorf(n, "undefined function %q. available functions are %s", n.Callee, sortedQuotes(ss))
+		// Arguments are still checked. Mistakes in them do not depend on the function
+		for _, a := range n.Args {
+			sema.check(a)
+		}
 		return AnyType{}
 	}
 
